@@ -134,23 +134,33 @@ func (o *storeHandler) getResource(r res.GetRequest) {
 func (o *storeHandler) changeHandler(id string, before, after interface{}) {
 	var err error
 	rid := id
+	beforeMissing := before == nil
+	afterMissing := after == nil
 	if o.trans != nil {
 		if before != nil {
 			before, err = o.trans.Transform(id, before)
 			if err != nil {
 				before = nil
 			}
-		} else if o.def != nil {
-			before = o.def
 		}
 		if after != nil {
 			after, err = o.trans.Transform(id, after)
 			if err != nil {
 				after = nil
 			}
-		} else if o.def != nil {
+		}
+	}
+	// A missing value is served as the default value, with or without a
+	// transformer, so it is also what the value changes from or to.
+	if o.def != nil {
+		if beforeMissing {
+			before = o.def
+		}
+		if afterMissing {
 			after = o.def
 		}
+	}
+	if o.trans != nil {
 		if after != nil {
 			rid = o.trans.IDToRID(id, after, o.p)
 		} else if before != nil {
